@@ -335,6 +335,65 @@ theorem lax_of_matches (q : Pattern) (us : Url) (h : «matches» q us = true) : 
         simp [matchesLax, matchesG, hs, h.1.2]
         exact ih us' h.2
 
+
+/-- A returned value always belongs to an inserted entry (no hypothesis at all). -/
+theorem lookGo_value_mem (us : List Part) :
+    ∀ (res : Res V) (fw : Option (Option V)) (params : List (String × String)) (path : List Part) (v : V),
+    (lookGo res fw params path us).value = some v →
+    (∃ q, (q, some v) ∈ res) ∨ fw = some (some v) := by
+  induction us with
+  | nil =>
+    intro res fw params path v h
+    unfold lookGo at h
+    split at h
+    · rename_i v' hv'
+      simp at h; subst h
+      exact .inl ⟨[], nodeValue_some hv'⟩
+    · split at h
+      · rename_i wv hw
+        simp at h; subst h
+        obtain ⟨p, rest, hmem, _⟩ := wildChild?_some hw
+        exact .inl ⟨_, hmem⟩
+      · split at h
+        · simp at h; subst h; exact .inr rfl
+        · simp [LookupResult.none] at h
+  | cons u us ih =>
+    intro res fw params path v h
+    unfold lookGo at h
+    simp only at h
+    have hfw : ∀ {fw' : Option (Option V)},
+        fw' = (match wildChild? res with | some wv => some wv | none => fw) →
+        fw' = some (some v) → (∃ q, (q, some v) ∈ res) ∨ fw = some (some v) := by
+      intro fw' hdef hfw'
+      cases hw : wildChild? res with
+      | none => rw [hw] at hdef; simp at hdef; subst hdef; exact .inr hfw'
+      | some wv =>
+        rw [hw] at hdef; simp at hdef; subst hdef
+        simp at hfw'; subst hfw'
+        obtain ⟨p, rest, hmem, _⟩ := wildChild?_some hw
+        exact .inl ⟨_, hmem⟩
+    have lift : ∀ k, (∃ q, (q, some v) ∈ step k res) → ∃ q, (q, some v) ∈ res := by
+      rintro k ⟨q, hq⟩
+      obtain ⟨p, hp, _⟩ := mem_step.mp hq
+      exact ⟨_, hp⟩
+    split at h
+    · rcases ih _ _ _ _ v h with hq | hfw'
+      · exact .inl (lift _ hq)
+      · exact hfw rfl hfw'
+    · split at h
+      · split at h
+        · rcases ih _ _ _ _ v h with hq | hfw'
+          · exact .inl (lift _ hq)
+          · exact hfw rfl hfw'
+        · exact hfw rfl (stuck_value h)
+      · exact hfw rfl (stuck_value h)
+
+theorem lookupParts_value_mem (t : Tree V) (us : List Part) (v : V)
+    (h : (lookupParts t us).value = some v) : ∃ q, (q, some v) ∈ t := by
+  rcases lookGo_value_mem us t none [] [] v h with h | h
+  · exact h
+  · simp at h
+
 /-- Soundness of `Lookup`: a returned value belongs to an inserted pattern that (laxly) matches the URL. -/
 theorem lookupParts_sound_lax (t : Tree V) (us : List Part) (v : V)
     (hwl : WildLast t) (hne : urlNonEmpty us = true) (h : (lookupParts t us).value = some v) :
